@@ -16,6 +16,7 @@ package ice
 // ops (tokens after "gather"):
 //   new <cfg> <ifaces>     cfg = k=v,... (see gParseCfg); ifaces = name:flags:addr+addr/... ("-" = none)
 //   gather | restart | close | fail | release | adv <ms> | stunreply <k> <m> | turnreply <k> <ok|fail> | end
+//   gather2 (two GatherCandidates queued behind a held task loop) | grg (GatherCandidates, Restart, GatherCandidates queued)
 // addresses are tokens <class>.<idx>: g4 l4 k4 u4 (IPv4 global/loopback/link-local/unspecified),
 //   g6 l6 k6 s6 c6 u6 (IPv6 global/loopback/link-local/site-local/IPv4-compatible/unspecified),
 //   x4 x6 (external = server-reflexive), r4 (relayed).
@@ -1262,6 +1263,48 @@ func (w *gWorld) exec(t []string) string {
 		err := a.GatherCandidates()
 		synctest.Wait()
 		return w.render(gErrTok(err))
+	case "gather2", "grg":
+		// Hold the task loop with a blocking task, queue the calls behind it one by one (a channel's send
+		// queue is FIFO, and each caller is parked in loop.Run before the next one starts), release the
+		// loop, quiesce. The queued tasks then run back to back, BEFORE the goroutine of the first cycle
+		// gets its setGatheringState(Gathering) task through: both GatherCandidates calls see state New.
+		release := make(chan struct{})
+		go func() { _ = a.loop.Run(a.loop, func(context.Context) { <-release }) }()
+		synctest.Wait()
+		var res []chan error
+		call := func(f func() error) {
+			ch := make(chan error, 1)
+			res = append(res, ch)
+			go func() { ch <- f() }()
+			synctest.Wait()
+		}
+		call(a.GatherCandidates)
+		next := -1
+		if t[0] == "grg" {
+			w.mu.Lock()
+			next = w.gen + 1
+			w.ufrags[gUfragOf(next)] = next
+			w.mu.Unlock()
+			call(func() error { return a.Restart(gUfragOf(next), gPwdOf(next)) })
+		}
+		call(a.GatherCandidates)
+		if next >= 0 && !w.closed {
+			// nothing has been opened while the loop was held; everything that follows the Restart task
+			// belongs to the next generation
+			w.mu.Lock()
+			w.gen = next
+			w.mu.Unlock()
+		}
+		close(release)
+		synctest.Wait()
+		var toks []string
+		for _, ch := range res {
+			toks = append(toks, gErrTok(<-ch))
+		}
+		if next >= 0 {
+			w.settleChecks()
+		}
+		return w.render(strings.Join(toks, "+"))
 	case "restart":
 		w.mu.Lock()
 		next := w.gen + 1
